@@ -166,6 +166,13 @@ class Check:
             if not build_ok:
                 errs = [l for l in (r.stdout + r.stderr).splitlines() if "error" in l][:20]
                 self.tie_breaks.append({"kind": "proof-obligation-broken", "modules": mods, "errors": errs})
+            # thorough tier: the toolchain's independent re-checker replays the compiled declarations of the property modules
+            if build_ok and self.tier == "thorough" and self.lean_modules:
+                rc = run(["lake", "env", "leanchecker", *self.lean_modules], cwd=LEAN, timeout=3600)
+                self.extra["leanchecker_rc"] = rc.returncode
+                if rc.returncode != 0:
+                    self.tie_breaks.append({"kind": "leanchecker-rejects", "modules": self.lean_modules,
+                                            "output": (rc.stdout + rc.stderr)[-1500:]})
             # audit: one file importing the modules that did build, #print axioms per theorem
             self.discharged = 0
             if self.theorems:
